@@ -1,5 +1,6 @@
 import Driver.Common
 import EgVerif.Spec.Validator
+import EgVerif.Model.Sha512
 /-!
 Judges for C06.
 
@@ -141,10 +142,37 @@ def tokenSegs (tok : Bytes) : Option (Bytes × Bytes × Bytes) :=
   | [a, c, d] => some (a, c, d)
   | _ => none
 
-def claimTime (cl : Json) (k : String) : Option Int :=
+/-- the claim `k` as it stands in the token's JSON (any numeric spelling; another JSON type = `other`) -/
+def claimVal (cl : Json) (k : String) : ClaimVal :=
   match cl.getObjVal? k with
-  | .ok (.num n) => some (n.mantissa / (10 ^ n.exponent : Nat))   -- int64(float64): truncation of non-negative values
-  | _ => none
+  | .ok (.num n) => .num n.mantissa n.exponent
+  | .ok _ => .other
+  | .error _ => .absent
+
+def timeClaimsOf (tok : Bytes) : Option TimeClaims :=
+  match tokenSegs tok with
+  | none => none
+  | some (_, c, _) =>
+    match segJson c with
+    | none => none
+    | some cl => some ⟨claimVal cl "exp", claimVal cl "iat", claimVal cl "nbf"⟩
+
+/-- the string claim `k` of a token (empty if absent or not a string): what `claims[k].(string)` yields -/
+def claimStrOf (tok : Bytes) (k : String) : Bytes :=
+  match tokenSegs tok with
+  | none => []
+  | some (_, c, _) =>
+    match segJson c with
+    | none => []
+    | some cl => match cl.getObjVal? k with
+      | .ok (.str v) => sb v
+      | _ => []
+
+def claimFormTag (k : String) : ClaimVal → List String
+  | .absent => []
+  | .other => ["jwt:" ++ k ++ ":non-number"]
+  | .num _ 0 => ["jwt:" ++ k ++ ":integer"]
+  | .num m e => if m % (10 : Int) ^ e == 0 then ["jwt:" ++ k ++ ":integer-valued-fraction-or-exponent"] else ["jwt:" ++ k ++ ":fraction"]
 
 def jwtLibOf (nowS : Int) (p : Json) (mismatch : Bool → Bool → Bool) : JwtLib where
   headerAlg tok := do
@@ -154,16 +182,7 @@ def jwtLibOf (nowS : Int) (p : Json) (mismatch : Bool → Bool → Bool) : JwtLi
     match hj.getObjVal? "alg" with
     | .ok (.str a) => if registeredAlgs.contains a then some (sb a) else none
     | _ => none
-  claimsOK tok :=
-    match tokenSegs tok with
-    | none => false
-    | some (_, c, _) =>
-      match segJson c with
-      | none => false
-      | some cl =>
-        (match claimTime cl "exp" with | some e => decide (nowS ≤ e) | none => true)
-        && (match claimTime cl "iat" with | some e => decide (e ≤ nowS) | none => true)
-        && (match claimTime cl "nbf" with | some e => decide (e ≤ nowS) | none => true)
+  claimsOK tok := claimsOKAt nowS timeClaimsOf tok
   sigOK tok alg key :=
     let orc : Json := ((getArr p "toks").toOption.getD #[]).toList.find? (fun o => sb (optStr o "tok") = tok) |>.getD Json.null
     match tokenSegs tok with
@@ -172,8 +191,10 @@ def jwtLibOf (nowS : Int) (p : Json) (mismatch : Bool → Bool → Bool) : JwtLi
       if alg = sb "HS256" then
         let mine := b64UrlDecodeSeg s == some (hmac key (h ++ 46 :: c))
         mismatch mine (optBool orc "hs256")
-      else if alg = sb "HS384" then optBool orc "hs384"
-      else if alg = sb "HS512" then optBool orc "hs512"
+      else if alg = sb "HS384" then
+        mismatch (b64UrlDecodeSeg s == some (EgVerif.Sha512.hmac384 key (h ++ 46 :: c))) (optBool orc "hs384")
+      else if alg = sb "HS512" then
+        mismatch (b64UrlDecodeSeg s == some (EgVerif.Sha512.hmac512 key (h ++ 46 :: c))) (optBool orc "hs512")
       else false
 
 /-! ## clock oracles -/
@@ -201,7 +222,8 @@ def parseReq (p : Json) : Except String Request := do
   let h ← getAssoc p "headers"
   let payload ← getHex p "payload_hex"
   pure { std := { method := optBytes p "method", epath := optBytes p "epath", query := q, headers := h,
-                  host := optBytes p "host", urlHost := optBytes p "url_host", scheme := optBytes p "scheme" },
+                  host := optBytes p "host", urlHost := optBytes p "url_host", scheme := optBytes p "scheme",
+                  queryErr := optBool p "query_err" },
          payload := payload }
 
 def outcomeOf (result : String) (hasResp : Bool) (status : Nat) : Option Outcome :=
@@ -257,7 +279,9 @@ def judgeReq (cfgJ : Json) (ro : Json) : Except String ReqVerdict := do
   let jwtCfg : Option JwtCfg := (optObj cfgJ "jwt").map fun j =>
     { alg := optBytes j "alg", secret := (unhex (optBytes j "secret_hex")).getD [], cookieName := optBytes j "cookie" }
   let rules ← parseRules cfgJ p
-  let cfg : EgVerif.Validator.Cfg := { headers := rules, jwt := jwtCfg, sig := sigCfg, basic := (optObj cfgJ "basic").isSome }
+  let oauthCfg : Option JwtCfg := (optObj cfgJ "oauth2").map fun j =>
+    { alg := optBytes j "alg", secret := (unhex (optBytes j "secret_hex")).getD [], cookieName := [] }
+  let cfg : EgVerif.Validator.Cfg := ⟨rules, jwtCfg, sigCfg, (optObj cfgJ "basic").isSome, oauthCfg⟩
   -- a disagreement between the Lean HMAC and crypto/hmac on an HS256 token is recorded here
   let shaBad := (jwtLibOf (optInt ro "jwt_now_s") p (fun mine go => mine != go)).sigOK
   let lib := jwtLibOf (optInt ro "jwt_now_s") p (fun mine _ => mine)
@@ -278,12 +302,22 @@ def judgeReq (cfgJ : Json) (ro : Json) : Except String ReqVerdict := do
   let fwdOK := optStr ro "fwd_hex" == optStr p "payload_hex"
   let user := if cfg.basic then basicValidate env0.users r.std.headers else none
   let userOK := if got == some .pass && cfg.basic then some (optBytes ro "auth_user") == user else true
+  -- OAuth2 validator (JWT mode): on acceptance X-Authenticated-Userid / -Scope are the token's `sub` / `scope` string claims
+  let oauthOK := match oauthCfg, got == some .pass with
+    | some _, true =>
+      match stripPrefix (sb "Bearer ") (hget r.std.headers authHeader) with
+      | some t => oauthHeaders (optBytes ro "oauth_user") (optBytes ro "oauth_scope") ==
+          oauthHeaders (claimStrOf t "sub") (claimStrOf t "scope")
+      | none => false
+    | _, _ => true
   let opaqueOK := optStr p "opaque" == ""
+  -- parser contract of the trusted base (`nolf_contract_checked`): no LF in method / hosts / header values
+  let nolfOK := noLFb r.std
   -- a passing request must not carry an error response
   let respOK := optStr ro "result" != "" || !optBool ro "has_resp"
   let shaOK := match jwtCfg with
     | some j => match jwtToken j env0.cookie r.std.headers with
-      | some t => !(shaBad t (sb "HS256") j.secret)
+      | some t => !(shaBad t (sb "HS256") j.secret) && !(shaBad t (sb "HS384") j.secret) && !(shaBad t (sb "HS512") j.secret)
       | none => true
     | none => true
   -- classify
@@ -294,21 +328,34 @@ def judgeReq (cfgJ : Json) (ro : Json) : Except String ReqVerdict := do
   let tags := ["mut:" ++ kind, (if accepted then "accepted" else s!"rejected-{status}")]
     ++ (if rules.isSome then ["cfg:headers"] else []) ++ (if jwtCfg.isSome then ["cfg:jwt"] else [])
     ++ (if sigCfg.isSome then ["cfg:signature"] else []) ++ (if cfg.basic then ["cfg:basic"] else []) ++ vtag
+    ++ (if oauthCfg.isSome then ["cfg:oauth2-jwt"] else [])
     ++ (if m0 != m1 then ["time-ambiguous"] else [])
+    ++ (match jwtCfg with
+        | some j => match jwtToken j env0.cookie r.std.headers with
+          | some t => match timeClaimsOf t with
+            | some c => claimFormTag "exp" c.exp ++ claimFormTag "nbf" c.nbf ++
+                (if timeClaimsOK (optInt ro "jwt_now_s") c then [] else ["jwt:time-claims-reject"])
+            | none => []
+          | none => []
+        | none => [])
     ++ (if r.payload.isEmpty then [] else ["body"])
+    ++ (if r.std.queryErr then ["query:unparsed-pair"] else [])
     ++ (match sigCfg with | some s => if s.excludeBody then ["exclude-body"] else [] | none => [])
   let sig :=
     if specOutcome then ""
     else if got == some (handleWith (fun _ => some []) parseCreds cfg env0 r) then "signature:body-not-covered"
     else if got == some (handleWith (fun r => some r.payload) parseCredsSplitAll cfg env0 r) then "basic:colon-in-password"
     else if got == some (handleWith (fun _ => some []) parseCredsSplitAll cfg env0 r) then "signature:body-not-covered+basic:colon-in-password"
+    else if r.std.queryErr && got == some (handle cfg env0 { r with std := { r.std with queryErr := false } }) then
+      "signature:unparsed-query-not-covered"
+    else if accepted && tags.contains "jwt:time-claims-reject" then "jwt:expired-or-not-yet-valid-admitted:" ++ kind
     else if accepted then "validator:accepted-invalid:" ++ kind
     else if got.isNone then "validator:malformed-outcome"
     else if s0 == .pass then "validator:rejected-valid:" ++ kind
     else "validator:wrong-status"
-  let note := (if fwdOK then "" else "forwarded payload changed; ") ++ (if userOK then "" else "X-AUTH-USER mismatch; ")
-    ++ (if opaqueOK then "" else "URL.Opaque non-empty; ") ++ (if respOK then "" else "passing request carries an error response; ") ++ (if shaOK then "" else "Lean HMAC-SHA256 != crypto/hmac on HS256 token; ")
-  pure { agree := agreeOutcome && fwdOK && userOK && opaqueOK && shaOK && respOK, spec := specOutcome && fwdOK,
+  let note := (if fwdOK then "" else "forwarded payload changed; ") ++ (if userOK then "" else "X-AUTH-USER mismatch; ") ++ (if oauthOK then "" else "X-Authenticated-Userid/-Scope mismatch; ")
+    ++ (if opaqueOK then "" else "URL.Opaque non-empty; ") ++ (if nolfOK then "" else "net/http contract NoLF violated (LF in method / host / header value); ") ++ (if respOK then "" else "passing request carries an error response; ") ++ (if shaOK then "" else "Lean HMAC-SHA256/384/512 != crypto/hmac on the token; ")
+  pure { agree := agreeOutcome && fwdOK && userOK && oauthOK && opaqueOK && shaOK && respOK && nolfOK, spec := specOutcome && fwdOK,
          expected := Json.mkObj [("label", label), ("model", outcomeJson m0), ("spec", outcomeJson s0)],
          tags := tags, accepted := accepted, sig := sig, note := note }
 
@@ -341,7 +388,8 @@ def parseStd (p : Json) : Except String Req := do
   let q ← getAssoc p "query"
   let h ← getAssoc p "headers"
   pure { method := optBytes p "method", epath := optBytes p "epath", query := q, headers := h,
-         host := optBytes p "host", urlHost := optBytes p "url_host", scheme := optBytes p "scheme" }
+         host := optBytes p "host", urlHost := optBytes p "url_host", scheme := optBytes p "scheme",
+         queryErr := optBool p "query_err" }
 
 def canonLiteral (cfgJ : Json) : Literal :=
   match optObj cfgJ "literal" with
@@ -432,7 +480,9 @@ def canonJudge : Judge := liftJudge fun input obs => do
   let sound := match initFromSignedRequest lit clock after with
     | .ok ctx =>
       !(optBool obs "verify_ok" && optBool obs "tamper_ok") ||
-        (covered cfg clock ctx after == covered cfg clock ctx tampered && (cfg.excludeBody || tb == seen))
+        (covered cfg clock ctx after == covered cfg clock ctx tampered && (cfg.excludeBody || tb == seen)
+          -- … and every pair of the raw query is among the covered ones (`accepted_query_fully_parsed`)
+          && !tampered.queryErr)
     | .error _ => !(optBool obs "verify_ok")
   -- spec 3: only a key id of the store, signed with its secret, is accepted
   let credOK := !optBool obs "verify_ok" || (optBytes input "store_key" == key && optBytes input "store_secret" == secret)
@@ -443,13 +493,14 @@ def canonJudge : Judge := liftJudge fun input obs => do
     ++ (if cfg.excludeBody then ["exclude-body"] else []) ++ (if body.isNone then ["body-nil"] else [])
     ++ (if (optObj cfgJ "literal").isSome then ["custom-literal"] else [])
     ++ (if honest then ["honest"] else ["dishonest"])
+    ++ (if noLFb after && noLFb tampered then [] else ["contract:lf-in-client-built-request"])
   let note := (if sameReq then "" else "signed request differs; ") ++ String.intercalate "," (badComps.map (·.1))
     ++ (if verifyAgree then "" else " verify: go=" ++ goV ++ " model=" ++ errTag v0)
     ++ (if tamperAgree then "" else " tamper verdict differs")
   pure { agree := sameReq && badComps.isEmpty && verifyAgree && tamperAgree, spec := complete && sound && credOK,
          expected := Json.mkObj (comps.map fun c => (c.1, Json.str (bs c.2.1))),
          tags := tags, nontrivial := optBool obs "verify_ok" && !optBool obs "tamper_ok",
-         sig := if !credOK then "signer:accepted-unknown-credential" else if !complete then "signer:valid-signature-rejected" else if !sound then "signer:tamper-accepted:" ++ kind else "",
+         sig := if !credOK then "signer:accepted-unknown-credential" else if !complete then "signer:valid-signature-rejected" else if !sound then (if tampered.queryErr && optBool obs "tamper_ok" then "signer:unparsed-query-not-covered" else "signer:tamper-accepted:" ++ kind) else "",
          note := note }
 
 def judges : List (String × Judge) := [("validator", validatorJudge), ("canon", canonJudge)]
